@@ -861,6 +861,22 @@ func ruleFilterCompaction(r *Run, rule string) {
 					}
 				}
 			}
+			// an element found nil on this segment is no plan at all: whatever happens to it is not judged
+			nilElem := false
+			for x := j + 1; x < len(p.Ev) && p.Ev[x].Kind != EvRange; x++ {
+				if b := p.Ev[x]; b.Kind == EvBranch && b.Cond != nil {
+					for _, l := range EventLiterals(info, b) {
+						if l.Val == "nil" && l.Eq {
+							if tv, ok := info.Types[l.X]; ok && ShortType(tv.Type) == "workflow.Plan" {
+								nilElem = true
+							}
+						}
+					}
+				}
+			}
+			if nilElem {
+				continue
+			}
 			recs = append(recs, staleRec{e.Taken, aged, removed, kept})
 		}
 	}
